@@ -283,8 +283,8 @@ Definition cl_backend (c : cfg) (x : tagk) (sn : snap) : bool :=
     end
   else true.
 
-(* clause "written back eventually": once a put succeeded (asynchronous mode), until the backend
-   holds the tag its write-back task stays stored *)
+(* clause "written back eventually": once a put succeeded, until the backend holds the tag its
+   write-back task stays stored (write-through: the backend holds it at once) *)
 Definition cl_pending (c : cfg) (x : tagk) (sn : snap) : bool :=
   if c_ns c && k_succ x then
     match sn_bk sn, sn_task sn with
@@ -298,7 +298,7 @@ Definition is_async (c : cfg) : bool := match c_mode c with Async => true | Writ
 (* the oracle's transition for the tag of the operation: new bookkeeping, clauses hold *)
 Definition chk_tag (c : cfg) (x : tagk) (o : op) (r : out) : tagk * bool :=
   let sn := o_snap r in
-  let pend (y : tagk) := if is_async c then cl_pending c y sn else true in
+  let pend (y : tagk) := cl_pending c y sn in
   match o with
   | Put p =>
       let passed := p_res p && deps_ok (p_deps p) in
